@@ -61,6 +61,7 @@ def _c05():
         ("R-PARSEERR", "a protocol error from parse_frame is queued/sent as an error reply on every path (no silent break)", rules_conn.rule_parseerr),
         ("R-READ-FEED", "once Connection::read has fed the parser in a call it returns `data available`: no error / `nothing read` exit is reachable after a feed (path-sensitive), so received commands are always parsed", rules_conn.rule_read_feed),
         ("R-SOCK-WRITE", "every write to the non-blocking client socket is a partial write of write_buffer[write_offset..] whose returned count is added to write_offset (no all-or-nothing write_all / write! that loses the progress of a partial write)", rules_conn.rule_sock_write),
+        ("R-CODEC-INLINE", "an inline (non-RESP) form the incremental parser recognises by a fixed-length comparison has a prefix test answering `incomplete` for a partial arrival (chunking independence)", rules_conn.rule_codec_inline),
         ("R-PARSE-DRAIN", "the loop draining the parser ends only when parse_frame reports an incomplete buffer or an error (no frame budget that strands complete commands until the next read)", rules_conn.rule_parse_drain),
         ("R-CODEC-SHORTTEST", "a non-panicking content test on an open-ended sub-slice of the input whose negative outcome leads to a protocol error is dominated by a length test covering the bytes examined (no error decided from bytes that have not arrived)", rules_conn.rule_codec_shorttest),
         ("R-PARSEERR-CLOSE", "the consumer of queued protocol errors pushes an error reply and requests the connection to be closed", rules_conn.rule_parseerr_close),
@@ -288,6 +289,7 @@ def _c20():
         ("R-RECURSE", "nested aggregates are parsed under a depth limit", rules_panic.rule_recurse),
         ("R-CODEC-TABLE", "the type byte the serializer writes for each variant is the byte for which the parser builds that variant; unknown bytes are errors; null forms mirrored; no unwrap on the parse path", rules_conn.rule_codec_table),
         ("R-CODEC-POS", "the incremental parser advances its position only on the Ok(Some) edge (restart-from-frame-start, the mechanism behind chunking independence)", rules_conn.rule_codec_pos),
+        ("R-CODEC-INLINE", "an inline (non-RESP) form the incremental parser recognises by a fixed-length comparison has a prefix test answering `incomplete` for a partial arrival (chunking independence)", rules_conn.rule_codec_inline),
         ("R-CRLF", "line-framed variants cannot be broken by payload bytes", rules_conn.rule_crlf),
         ("R-CODEC-DECBUF", "a stack buffer that a digit loop fills with a 64-bit integer's decimal form has at least 20 bytes", rules_conn.rule_codec_decbuf),
         ("R-CODEC-SHORTTEST", "a non-panicking content test on an open-ended sub-slice of the input whose negative outcome leads to a protocol error is dominated by a length test covering the bytes examined (no error decided from bytes that have not arrived)", rules_conn.rule_codec_shorttest),
